@@ -56,6 +56,9 @@ type Violation struct {
 	Kinds   map[string]string `json:"kinds"`  // nondet name -> kind (u8,u64,bool,bytes:N,choose:N,...)
 	Trace   string            `json:"trace"`  // decision vector
 	Stack   []string          `json:"stack,omitempty"`
+	// Alts are further counterexamples for the same assertion (other paths): if this one does
+	// not replay natively because of a modelling difference, another one may.
+	Alts []*Violation `json:"-"`
 }
 
 func (v *Violation) Key() string {
